@@ -27,7 +27,33 @@ fn env_u64(name: &str) -> Option<u64> {
     std::env::var(name).ok().and_then(|v| v.trim().parse().ok())
 }
 
+/// Force every process-wide lazily initialised static of the code under test and its
+/// dependencies on this (non-simulation) thread, before any run starts: whichever simulation
+/// thread touched them first would otherwise execute their initialisers (which build hash maps,
+/// i.e. advance that thread's `RandomState` counter) and diverge from its replay.
+fn warm_process_statics() {
+    lumina_node::verif::warm_statics();
+    // leopard tables, nmt-rs, ed25519 tables, protobuf codecs
+    let sq = crate::seams::squares::Square::generate(crate::seams::squares::SquareParams {
+        class: 0,
+        ods_width: 2,
+        namespaces: 2,
+    });
+    let _ = celestia_types::sample::Sample::new(0, 1, celestia_types::AxisType::Row, &sq.eds);
+    let c = crate::seams::chain::Chain::generate(crate::seams::chain::ChainParams {
+        class: 0,
+        len: 2,
+        validators: 2,
+        block_time_ms: 1000,
+        head_offset_ms: -10_000,
+    });
+    let _ = c.get(1).validate();
+    let _ = c.get(1).verify(c.get(2));
+    let _ = crate::seams::chain::empty_dah();
+}
+
 pub fn main(args: &[String]) -> i32 {
+    warm_process_statics();
     match args.first().map(|s| s.as_str()) {
         Some("check") => {
             let Some(id) = args.get(1) else {
